@@ -103,7 +103,7 @@ Proof.
   destruct (kids_canon_sr ld kids (all_canon_sr ld kids) HW fuel 16%N 16%N (16 + lenN (cencs kids))%N (zlen pre') [] pre' post cst rk sk)
     as [Ho|[Ho Hsk]]; try exact Ek; try lia; try reflexivity; try (rewrite Hbuf; exact Hs);
     try (pose proof (zlen_nonneg pre'); lia); try (change (16 - 16)%N with 0%N; lia); try contradiction.
-  subst rk. cbn [rev app]. rewrite finish_ok. destruct sk as [rs cs]. cbn [sr] in Hsk. subst rs.
+  subst rk. cbn [rev app]. destruct sk as [rs cs]. cbn [sr] in Hsk. subst rs. cbn [sr rerr]. rewrite finish_ok.
   exists cs. rewrite Hbuf. f_equal. f_equal. f_equal. rewrite Hp8. rewrite (zlen_lenN p), HLp, (zlen_lenN (cencs kids)). lia.
 Qed.
 
